@@ -38,6 +38,11 @@ def run_one(m, repo='/repo', keep=False):
             for rel in ('versionconfig.h', 'api/libcellml/exportdefinitions.h'):
                 if os.path.exists(os.path.join(b, rel)):
                     shutil.copyfile(os.path.join(b, rel), os.path.join(tmp, '_build', 'src', rel))
+        if m.get('base_patch'):
+            # a behaviour-preserving restructuring (seeded_neutral/...) applied first: the edits below then break the RESTRUCTURED code
+            r0 = subprocess.run(['patch', '-p1', '-s', '-d', tmp, '-i', os.path.join(VERIF, m['base_patch'])], stdout=subprocess.PIPE, stderr=subprocess.STDOUT, text=True)
+            if r0.returncode != 0:
+                return {'id': m['id'], 'status': 'skipped', 'why': 'base patch does not apply: ' + r0.stdout.strip()[-120:]}
         if m.get('patch'):
             r0 = subprocess.run(['patch', '-p1', '-s', '-d', tmp, '-i', m['patch']], stdout=subprocess.PIPE, stderr=subprocess.STDOUT, text=True)
             if r0.returncode != 0:
